@@ -1,7 +1,1489 @@
-//! C11 engine (stub)
+//! C11: descriptors stay with their own message, are never leaked and never closed twice.
+//!
+//! Histories over REAL descriptors: temp files with distinct inodes, `UnixFd`s, message bodies, a real
+//! `DuplexConn` connected to an in-process scripted peer that echoes every message (with its
+//! descriptors) back, and peer-made messages. After EVERY step the process descriptor table
+//! (`/proc/self/fd` minus the baseline taken after connecting) is audited: the open descriptors in
+//! creation order with the identity (st_dev, st_ino) of the file behind each; together with the result
+//! of the call and the number of `close` calls the library made (hook `FdClose`) this is the
+//! observation that the model (`Rustbus.FdTable`) has to reproduce.
+use rustbus::connection::ll_conn::DuplexConn;
+use rustbus::connection::Timeout;
+use rustbus::message_builder::{MarshalledMessage, MarshalledMessageBody, MessageBuilder};
+use rustbus::wire::unmarshal::traits::Variant;
+use rustbus::wire::UnixFd;
+use std::cell::RefCell;
+use std::collections::{BTreeSet, HashMap, VecDeque};
+use std::num::NonZeroU32;
+use std::os::unix::io::{AsRawFd, IntoRawFd, RawFd};
+use std::os::unix::net::UnixStream;
+use std::rc::Rc;
 use vcore::common::*;
+use vcore::eng_wire::guard;
+use vcore::peer;
+
+const NFILES: usize = 5;
+const MAX_RECV_FDS: usize = 10;
+
+// ---------------------------------------------------------------------------------------------
+// process table audit
+
+fn list_fds() -> Vec<RawFd> {
+    let mut v = Vec::new();
+    unsafe {
+        let d = libc::opendir(b"/proc/self/fd\0".as_ptr() as *const libc::c_char);
+        if d.is_null() {
+            return v;
+        }
+        let dfd = libc::dirfd(d);
+        loop {
+            let e = libc::readdir(d);
+            if e.is_null() {
+                break;
+            }
+            let name = std::ffi::CStr::from_ptr((*e).d_name.as_ptr());
+            if let Ok(n) = name.to_string_lossy().parse::<RawFd>() {
+                if n != dfd {
+                    v.push(n);
+                }
+            }
+        }
+        libc::closedir(d);
+    }
+    v.sort();
+    v
+}
+
+fn ident(fd: RawFd) -> Option<(u64, u64)> {
+    unsafe {
+        let mut st: libc::stat = std::mem::zeroed();
+        if libc::fstat(fd, &mut st) == 0 {
+            Some((st.st_dev as u64, st.st_ino as u64))
+        } else {
+            None
+        }
+    }
+}
+
+struct Pool {
+    paths: Vec<String>,
+    ids: HashMap<(u64, u64), usize>,
+}
+
+impl Pool {
+    fn new(dir: &str) -> Pool {
+        let d = format!("{}/files", dir);
+        std::fs::create_dir_all(&d).unwrap();
+        let mut paths = Vec::new();
+        let mut ids = HashMap::new();
+        for i in 0..NFILES {
+            let p = format!("{}/f{}", d, i);
+            std::fs::write(&p, format!("file {}\n", i)).unwrap();
+            let f = std::fs::File::open(&p).unwrap();
+            ids.insert(ident(f.as_raw_fd()).unwrap(), i);
+            paths.push(p);
+        }
+        Pool { paths, ids }
+    }
+    fn open(&self, f: usize) -> RawFd {
+        std::fs::File::open(&self.paths[f]).unwrap().into_raw_fd()
+    }
+    /// file id behind a descriptor; 99 = not one of ours, 98 = not open
+    fn file_of(&self, fd: RawFd) -> usize {
+        match ident(fd) {
+            Some(k) => *self.ids.get(&k).unwrap_or(&99),
+            None => 98,
+        }
+    }
+}
+
+// ---------------------------------------------------------------------------------------------
+// operations
+
+#[derive(Clone, Copy, Debug, PartialEq)]
+enum Shape {
+    Plain,
+    Raw,
+    Struct,
+    Pair,
+    Vec(usize),
+    Variant,
+    Dict,
+    Multi(usize),
+    Mixed,
+    MultiBad,
+    StructBad,
+}
+
+impl Shape {
+    fn name(&self) -> String {
+        match self {
+            Shape::Plain => "plain".into(),
+            Shape::Raw => "raw".into(),
+            Shape::Struct => "struct".into(),
+            Shape::Pair => "pair".into(),
+            Shape::Vec(n) => format!("vec{}", n),
+            Shape::Variant => "variant".into(),
+            Shape::Dict => "dict".into(),
+            Shape::Multi(n) => format!("multi{}", n),
+            Shape::Mixed => "mixed".into(),
+            Shape::MultiBad => "multibad".into(),
+            Shape::StructBad => "structbad".into(),
+        }
+    }
+    fn parse(s: &str) -> Option<Shape> {
+        Some(match s {
+            "plain" => Shape::Plain,
+            "raw" => Shape::Raw,
+            "struct" => Shape::Struct,
+            "pair" => Shape::Pair,
+            "variant" => Shape::Variant,
+            "dict" => Shape::Dict,
+            "mixed" => Shape::Mixed,
+            "multibad" => Shape::MultiBad,
+            "structbad" => Shape::StructBad,
+            _ => {
+                if let Some(n) = s.strip_prefix("vec") {
+                    Shape::Vec(n.parse().ok()?)
+                } else if let Some(n) = s.strip_prefix("multi") {
+                    Shape::Multi(n.parse().ok()?)
+                } else {
+                    return None;
+                }
+            }
+        })
+    }
+    /// number of handle items the shape consumes
+    fn nhandles(&self) -> usize {
+        match self {
+            Shape::Plain | Shape::Struct | Shape::Variant | Shape::Dict | Shape::MultiBad | Shape::StructBad => 1,
+            Shape::Raw => 0,
+            Shape::Pair => 2,
+            Shape::Vec(n) | Shape::Multi(n) => *n,
+            Shape::Mixed => 3,
+        }
+    }
+    /// the top-level params a successful push of this shape appends
+    fn params(&self) -> Vec<PShape> {
+        match self {
+            Shape::Plain | Shape::Raw => vec![PShape::H],
+            Shape::Struct => vec![PShape::Struct],
+            Shape::Pair => vec![PShape::Pair],
+            Shape::Vec(n) => vec![PShape::Vec(*n)],
+            Shape::Variant => vec![PShape::Variant],
+            Shape::Dict => vec![PShape::Dict],
+            Shape::Multi(n) => vec![PShape::H; *n],
+            Shape::Mixed => vec![PShape::H, PShape::Struct, PShape::Vec(1)],
+            Shape::MultiBad | Shape::StructBad => vec![],
+        }
+    }
+}
+
+/// how a top-level param that carries descriptors is read back
+#[derive(Clone, Copy, Debug, PartialEq)]
+enum PShape {
+    H,
+    Struct,
+    Pair,
+    Vec(usize),
+    Variant,
+    Dict,
+}
+
+impl PShape {
+    fn nfds(&self) -> usize {
+        match self {
+            PShape::Pair => 2,
+            PShape::Vec(n) => *n,
+            _ => 1,
+        }
+    }
+}
+
+#[derive(Clone, Debug, PartialEq)]
+enum ItemE {
+    H(usize),
+    R(usize),
+    Bad,
+}
+
+#[derive(Clone, Debug)]
+enum OpE {
+    Open(usize),
+    Close(usize),
+    Wrap(usize),
+    NewBody,
+    Push { b: usize, items: Vec<ItemE>, shape: Shape },
+    Reset(usize),
+    DropBody(usize),
+    Send(usize),
+    PeerSend { files: Vec<usize>, idx: Vec<u32>, valid: bool },
+    Recv,
+    Unm(usize, usize),
+    Take(usize),
+    Get(usize),
+    Dup(usize),
+    CloneH(usize),
+    DropH(usize),
+}
+
+fn commas<T: ToString>(xs: &[T]) -> String {
+    if xs.is_empty() {
+        "-".into()
+    } else {
+        xs.iter().map(|x| x.to_string()).collect::<Vec<_>>().join(",")
+    }
+}
+fn dots<T: ToString>(xs: &[T]) -> String {
+    if xs.is_empty() {
+        "-".into()
+    } else {
+        xs.iter().map(|x| x.to_string()).collect::<Vec<_>>().join(".")
+    }
+}
+
+fn tok(op: &OpE) -> String {
+    match op {
+        OpE::Open(f) => format!("o{}", f),
+        OpE::Close(r) => format!("x{}", r),
+        OpE::Wrap(r) => format!("w{}", r),
+        OpE::NewBody => "nb".into(),
+        OpE::Push { b, items, shape } => {
+            let its: Vec<String> = items
+                .iter()
+                .map(|i| match i {
+                    ItemE::H(h) => format!("h{}", h),
+                    ItemE::R(r) => format!("r{}", r),
+                    ItemE::Bad => "bad".into(),
+                })
+                .collect();
+            format!("p{}:{}:{}", b, commas(&its), shape.name())
+        }
+        OpE::Reset(b) => format!("rs{}", b),
+        OpE::DropBody(b) => format!("db{}", b),
+        OpE::Send(b) => format!("s{}", b),
+        OpE::PeerSend { files, idx, valid } => format!("ps{}:{}:{}", commas(files), commas(idx), if *valid { 1 } else { 0 }),
+        OpE::Recv => "rc".into(),
+        OpE::Unm(b, j) => format!("u{}:{}", b, j),
+        OpE::Take(h) => format!("t{}", h),
+        OpE::Get(h) => format!("g{}", h),
+        OpE::Dup(h) => format!("d{}", h),
+        OpE::CloneH(h) => format!("c{}", h),
+        OpE::DropH(h) => format!("dh{}", h),
+    }
+}
+
+fn parse_list<T: std::str::FromStr>(s: &str) -> Option<Vec<T>> {
+    if s == "-" {
+        return Some(vec![]);
+    }
+    s.split(',').map(|x| x.parse().ok()).collect()
+}
+
+fn parse_tok(t: &str) -> Option<OpE> {
+    let num = |s: &str| s.parse::<usize>().ok();
+    if t == "nb" {
+        return Some(OpE::NewBody);
+    }
+    if t == "rc" {
+        return Some(OpE::Recv);
+    }
+    if let Some(r) = t.strip_prefix("ps") {
+        let p: Vec<&str> = r.split(':').collect();
+        if p.len() != 3 {
+            return None;
+        }
+        return Some(OpE::PeerSend { files: parse_list(p[0])?, idx: parse_list(p[1])?, valid: p[2] == "1" });
+    }
+    if let Some(r) = t.strip_prefix("p") {
+        let p: Vec<&str> = r.split(':').collect();
+        if p.len() != 3 {
+            return None;
+        }
+        let mut items = Vec::new();
+        if p[1] != "-" {
+            for i in p[1].split(',') {
+                items.push(if i == "bad" {
+                    ItemE::Bad
+                } else if let Some(h) = i.strip_prefix("h") {
+                    ItemE::H(num(h)?)
+                } else if let Some(r) = i.strip_prefix("r") {
+                    ItemE::R(num(r)?)
+                } else {
+                    return None;
+                });
+            }
+        }
+        return Some(OpE::Push { b: num(p[0])?, items, shape: Shape::parse(p[2])? });
+    }
+    if let Some(r) = t.strip_prefix("rs") {
+        return Some(OpE::Reset(num(r)?));
+    }
+    if let Some(r) = t.strip_prefix("db") {
+        return Some(OpE::DropBody(num(r)?));
+    }
+    if let Some(r) = t.strip_prefix("dh") {
+        return Some(OpE::DropH(num(r)?));
+    }
+    if let Some(r) = t.strip_prefix("s") {
+        return Some(OpE::Send(num(r)?));
+    }
+    if let Some(r) = t.strip_prefix("u") {
+        let p: Vec<&str> = r.split(':').collect();
+        if p.len() != 2 {
+            return None;
+        }
+        return Some(OpE::Unm(num(p[0])?, num(p[1])?));
+    }
+    let (c, r) = t.split_at(1);
+    let n = num(r)?;
+    Some(match c {
+        "o" => OpE::Open(n),
+        "x" => OpE::Close(n),
+        "w" => OpE::Wrap(n),
+        "t" => OpE::Take(n),
+        "g" => OpE::Get(n),
+        "d" => OpE::Dup(n),
+        "c" => OpE::CloneH(n),
+        _ => return None,
+    })
+}
+
+// ---------------------------------------------------------------------------------------------
+// independent reader for the u32 index values of the `h` elements of a body
+
+fn align(pos: &mut usize, a: usize) {
+    *pos = (*pos + a - 1) / a * a;
+}
+fn rd_u32(buf: &[u8], pos: &mut usize) -> Result<u32, String> {
+    align(pos, 4);
+    if *pos + 4 > buf.len() {
+        return Err("short".into());
+    }
+    let v = u32::from_le_bytes([buf[*pos], buf[*pos + 1], buf[*pos + 2], buf[*pos + 3]]);
+    *pos += 4;
+    Ok(v)
+}
+fn sig_align(c: u8) -> usize {
+    match c {
+        b'(' | b'{' => 8,
+        b'v' => 1,
+        _ => 4,
+    }
+}
+/// skip one complete type in a signature
+fn skip_sig(sig: &[u8], si: &mut usize) -> Result<(), String> {
+    if *si >= sig.len() {
+        return Err("sig end".into());
+    }
+    let c = sig[*si];
+    *si += 1;
+    match c {
+        b'a' => skip_sig(sig, si),
+        b'(' => {
+            while *si < sig.len() && sig[*si] != b')' {
+                skip_sig(sig, si)?;
+            }
+            *si += 1;
+            Ok(())
+        }
+        b'{' => {
+            skip_sig(sig, si)?;
+            skip_sig(sig, si)?;
+            *si += 1;
+            Ok(())
+        }
+        _ => Ok(()),
+    }
+}
+fn walk(sig: &[u8], si: &mut usize, buf: &[u8], pos: &mut usize, out: &mut Vec<u32>) -> Result<(), String> {
+    if *si >= sig.len() {
+        return Err("sig end".into());
+    }
+    let c = sig[*si];
+    *si += 1;
+    match c {
+        b'h' => {
+            out.push(rd_u32(buf, pos)?);
+            Ok(())
+        }
+        b'u' => rd_u32(buf, pos).map(|_| ()),
+        b's' => {
+            let l = rd_u32(buf, pos)? as usize;
+            *pos += l + 1;
+            Ok(())
+        }
+        b'(' => {
+            align(pos, 8);
+            while *si < sig.len() && sig[*si] != b')' {
+                walk(sig, si, buf, pos, out)?;
+            }
+            *si += 1;
+            Ok(())
+        }
+        b'{' => {
+            align(pos, 8);
+            walk(sig, si, buf, pos, out)?;
+            walk(sig, si, buf, pos, out)?;
+            *si += 1;
+            Ok(())
+        }
+        b'a' => {
+            let l = rd_u32(buf, pos)? as usize;
+            if *si >= sig.len() {
+                return Err("sig end".into());
+            }
+            align(pos, sig_align(sig[*si]));
+            let end = *pos + l;
+            let start = *si;
+            let mut after = start;
+            skip_sig(sig, &mut after)?;
+            while *pos < end {
+                let mut s2 = start;
+                walk(sig, &mut s2, buf, pos, out)?;
+            }
+            *si = after;
+            Ok(())
+        }
+        b'v' => {
+            if *pos >= buf.len() {
+                return Err("short".into());
+            }
+            let l = buf[*pos] as usize;
+            let inner = buf.get(*pos + 1..*pos + 1 + l).ok_or("short")?.to_vec();
+            *pos += l + 2;
+            let mut s2 = 0;
+            while s2 < inner.len() {
+                walk(&inner, &mut s2, buf, pos, out)?;
+            }
+            Ok(())
+        }
+        other => Err(format!("type {} not handled by the harness reader", other as char)),
+    }
+}
+fn body_indices(msg: &MarshalledMessage) -> Result<Vec<u32>, String> {
+    let sig = msg.get_sig().as_bytes().to_vec();
+    let buf = msg.get_buf();
+    let mut si = 0;
+    let mut pos = 0;
+    let mut out = Vec::new();
+    while si < sig.len() {
+        walk(&sig, &mut si, buf, &mut pos, &mut out)?;
+    }
+    Ok(out)
+}
+
+struct RawW(RawFd);
+impl AsRawFd for RawW {
+    fn as_raw_fd(&self) -> RawFd {
+        self.0
+    }
+}
+
+// ---------------------------------------------------------------------------------------------
+// one history
+
+struct BodyE {
+    msg: MarshalledMessage,
+    params: Vec<PShape>,
+}
+
+struct FlightE {
+    files: Vec<usize>,
+    params: Vec<PShape>,
+    valid: bool,
+}
+
+#[derive(Clone, Copy)]
+struct Tracked {
+    num: RawFd,
+    file: usize,
+    serial: u64,
+}
+
+/// what has to be appended to the result once the table has been audited
+enum After {
+    Nothing,
+    /// `/<rank>` of this number; the number becomes known to the caller (`raws`)
+    RankRaw(RawFd),
+    /// `/r<rank>` or `/rt`
+    RankHandle(Option<RawFd>),
+    /// a new raw number for the caller without a rank in the result
+    NewRaw,
+}
+
+struct Hist<'a> {
+    pool: &'a Pool,
+    conn: DuplexConn,
+    server: UnixStream,
+    baseline: BTreeSet<RawFd>,
+    order: Vec<Tracked>,
+    next_serial: u64,
+    raws: Vec<(RawFd, u64)>,
+    owned: BTreeSet<RawFd>,
+    handles: Vec<Option<UnixFd>>,
+    bodies: Vec<Option<BodyE>>,
+    inflight: VecDeque<FlightE>,
+    closes: Rc<RefCell<Vec<RawFd>>>,
+    toks: Vec<String>,
+    obs: Vec<String>,
+    bad: Vec<String>,
+    hits: Vec<String>,
+    serial_ctr: u32,
+}
+
+fn unmarshal_jth(body: &BodyE, j: usize) -> Result<UnixFd, String> {
+    let mut parser = body.msg.body.parser();
+    let mut seen = 0usize;
+    for p in &body.params {
+        let got: Result<Vec<UnixFd>, rustbus::wire::errors::UnmarshalError> = match p {
+            PShape::H => parser.get::<UnixFd>().map(|f| vec![f]),
+            PShape::Struct => parser.get::<(u32, UnixFd)>().map(|(_, f)| vec![f]),
+            PShape::Pair => parser.get::<(UnixFd, UnixFd)>().map(|(a, b)| vec![a, b]),
+            PShape::Vec(_) => parser.get::<Vec<UnixFd>>(),
+            PShape::Variant => parser.get::<Variant>().and_then(|v| v.get::<UnixFd>()).map(|f| vec![f]),
+            PShape::Dict => parser.get::<HashMap<String, UnixFd>>().map(|m| m.into_values().collect()),
+        };
+        match got {
+            Ok(fds) => {
+                if j < seen + fds.len() {
+                    return Ok(fds.into_iter().nth(j - seen).unwrap());
+                }
+                seen += fds.len();
+            }
+            Err(e) => {
+                // only the param that holds the j-th value may fail (the generator guarantees it)
+                return Err(format!("{:?}", e));
+            }
+        }
+    }
+    Err("no such value".into())
+}
+
+impl<'a> Hist<'a> {
+    fn new(pool: &'a Pool) -> Hist<'a> {
+        let (conn, server) = peer::connect_pair(true);
+        let closes: Rc<RefCell<Vec<RawFd>>> = Rc::new(RefCell::new(Vec::new()));
+        let c2 = closes.clone();
+        rustbus::verif_hooks::set_callback(Some(Box::new(move |p| {
+            if let rustbus::verif_hooks::Point::FdClose(fd) = p {
+                c2.borrow_mut().push(fd);
+            }
+        })));
+        let baseline: BTreeSet<RawFd> = list_fds().into_iter().collect();
+        Hist {
+            pool,
+            conn,
+            server,
+            baseline,
+            order: Vec::new(),
+            next_serial: 0,
+            raws: Vec::new(),
+            owned: BTreeSet::new(),
+            handles: Vec::new(),
+            bodies: Vec::new(),
+            inflight: VecDeque::new(),
+            closes,
+            toks: Vec::new(),
+            obs: Vec::new(),
+            bad: Vec::new(),
+            hits: Vec::new(),
+            serial_ctr: 1000,
+        }
+    }
+
+    fn violation(&mut self, what: String) {
+        let at = self.toks.len();
+        self.bad.push(format!("step {}: {}", at, what));
+    }
+
+    /// bring `order` up to date with the process table
+    fn audit(&mut self) {
+        let now: Vec<RawFd> = list_fds().into_iter().filter(|n| !self.baseline.contains(n)).collect();
+        let nowset: BTreeSet<RawFd> = now.iter().cloned().collect();
+        let pool = self.pool;
+        // a tracked descriptor is gone if its number is closed or now names another file
+        self.order.retain(|t| nowset.contains(&t.num) && pool.file_of(t.num) == t.file);
+        let known: BTreeSet<RawFd> = self.order.iter().map(|t| t.num).collect();
+        for n in now {
+            if !known.contains(&n) {
+                // within one step descriptors are created lowest-free-number first: ascending = creation order
+                self.order.push(Tracked { num: n, file: pool.file_of(n), serial: self.next_serial });
+                self.next_serial += 1;
+            }
+        }
+    }
+
+    fn rank(&self, n: RawFd) -> String {
+        match self.order.iter().position(|t| t.num == n) {
+            Some(i) => i.to_string(),
+            None => "closed".into(),
+        }
+    }
+    fn serial_of(&self, n: RawFd) -> u64 {
+        self.order.iter().find(|t| t.num == n).map(|t| t.serial).unwrap_or(u64::MAX)
+    }
+    fn raw_valid(&self, r: usize) -> bool {
+        let (n, s) = self.raws[r];
+        self.order.iter().any(|t| t.num == n && t.serial == s)
+    }
+
+    fn step(&mut self, op: OpE) {
+        self.closes.borrow_mut().clear();
+        let before: Vec<Tracked> = self.order.clone();
+        let creates = matches!(op, OpE::Push { .. } | OpE::Recv | OpE::Dup(_) | OpE::Open(_));
+        let t = tok(&op);
+        let (mut res, after) = self.exec(&op);
+        self.toks.push(t);
+        self.audit();
+        match after {
+            After::Nothing => {}
+            After::RankRaw(n) => {
+                res.push_str(&format!("/{}", self.rank(n)));
+                self.raws.push((n, self.serial_of(n)));
+            }
+            After::RankHandle(Some(n)) => res.push_str(&format!("/r{}", self.rank(n))),
+            After::RankHandle(None) => res.push_str("/rt"),
+            After::NewRaw => {
+                // the descriptor the caller just opened is the newest one
+                if let Some(t) = self.order.last().cloned() {
+                    self.raws.push((t.num, t.serial));
+                    self.owned.insert(t.num);
+                }
+            }
+        }
+        // the close calls of the library in this step
+        let closes: Vec<RawFd> = self.closes.borrow().clone();
+        let mut seen = BTreeSet::new();
+        for c in &closes {
+            if self.baseline.contains(c) {
+                self.violation(format!("the library closed descriptor {} which belongs to the harness/connection", c));
+            }
+            if self.owned.contains(c) {
+                self.violation(format!("the library closed descriptor {} which is owned by the caller (file {})", c, self.pool.file_of(*c)));
+            }
+            if !seen.insert(*c) {
+                self.violation(format!("descriptor {} closed twice in one operation", c));
+            }
+            let was_open = before.iter().any(|t| t.num == *c);
+            if !was_open && !creates {
+                self.violation(format!("close({}) on a descriptor that was not open (double close)", c));
+            }
+            if was_open && self.order.iter().any(|t| t.num == *c && before.iter().any(|b| b.serial == t.serial)) {
+                self.violation(format!("close({}) was called but the descriptor is still open", c));
+            }
+        }
+        // the caller's descriptors stay open and keep their file
+        let owned: Vec<RawFd> = self.owned.iter().cloned().collect();
+        for n in owned {
+            if !self.order.iter().any(|t| t.num == n && before.iter().chain(self.order.iter()).any(|b| b.serial == t.serial)) {
+                self.violation(format!("descriptor {} owned by the caller is not open any more", n));
+            }
+        }
+        // a handle that still has its descriptor: the descriptor is open
+        let mut dead = Vec::new();
+        for (i, h) in self.handles.iter().enumerate() {
+            if let Some(h) = h {
+                if let Some(n) = h.get_raw_fd() {
+                    if ident(n).is_none() {
+                        dead.push((i, n));
+                    }
+                }
+            }
+        }
+        for (i, n) in dead {
+            self.violation(format!("handle {} is alive and not taken but its descriptor {} is closed", i, n));
+        }
+        let table = dots(&self.order.iter().map(|t| t.file).collect::<Vec<_>>());
+        self.obs.push(format!("{};{};{}", res, table, closes.len()));
+    }
+
+    fn files_of_fds(&self, fds: &[UnixFd]) -> Vec<String> {
+        fds.iter()
+            .map(|f| match f.get_raw_fd() {
+                Some(n) => match self.pool.file_of(n) {
+                    98 => "x".to_string(),
+                    k => k.to_string(),
+                },
+                None => "t".to_string(),
+            })
+            .collect()
+    }
+
+    fn exec(&mut self, op: &OpE) -> (String, After) {
+        match op {
+            OpE::Open(f) => {
+                let _n = self.pool.open(*f);
+                ("ok".into(), After::NewRaw)
+            }
+            OpE::Close(r) => {
+                let (n, _) = self.raws[*r];
+                if !self.owned.contains(&n) || !self.raw_valid(*r) {
+                    return ("ill".into(), After::Nothing);
+                }
+                self.owned.remove(&n);
+                if nix::unistd::close(n).is_err() {
+                    self.violation(format!("closing the caller's own descriptor {} failed: somebody closed it already", n));
+                }
+                ("ok".into(), After::Nothing)
+            }
+            OpE::Wrap(r) => {
+                let (n, _) = self.raws[*r];
+                if !self.owned.contains(&n) || !self.raw_valid(*r) {
+                    return ("ill".into(), After::Nothing);
+                }
+                self.owned.remove(&n);
+                self.handles.push(Some(UnixFd::new(n)));
+                ("ok".into(), After::Nothing)
+            }
+            OpE::NewBody => {
+                let msg = MessageBuilder::new().signal("a.b", "M", "/o").build();
+                self.bodies.push(Some(BodyE { msg, params: Vec::new() }));
+                ("ok".into(), After::Nothing)
+            }
+            OpE::Push { b, items, shape } => self.exec_push(*b, items, *shape),
+            OpE::Reset(b) => match self.bodies.get_mut(*b) {
+                Some(Some(body)) => {
+                    body.msg.body.reset();
+                    body.params.clear();
+                    if !body.msg.body.get_fds().is_empty() {
+                        self.violation("reset() left descriptors in the body".into());
+                    }
+                    ("ok".into(), After::Nothing)
+                }
+                _ => ("ill".into(), After::Nothing),
+            },
+            OpE::DropBody(b) => match self.bodies.get_mut(*b) {
+                Some(x @ Some(_)) => {
+                    *x = None;
+                    ("ok".into(), After::Nothing)
+                }
+                _ => ("ill".into(), After::Nothing),
+            },
+            OpE::Send(b) => self.exec_send(*b),
+            OpE::PeerSend { files, idx, valid } => self.exec_peer_send(files, idx, *valid),
+            OpE::Recv => self.exec_recv(),
+            OpE::Unm(b, j) => self.exec_unm(*b, *j),
+            OpE::Take(h) => match self.handles.get_mut(*h) {
+                Some(x @ Some(_)) => {
+                    let hd = x.take().unwrap();
+                    let seen = hd.get_raw_fd();
+                    match hd.take_raw_fd() {
+                        Some(n) => {
+                            if seen != Some(n) {
+                                self.violation(format!("take_raw_fd returned {} but the handle held {:?}", n, seen));
+                            }
+                            self.owned.insert(n);
+                            ("fd".into(), After::RankRaw(n))
+                        }
+                        None => ("none".into(), After::Nothing),
+                    }
+                }
+                _ => ("ill".into(), After::Nothing),
+            },
+            OpE::Get(h) => match self.handles.get(*h) {
+                Some(Some(hd)) => match hd.get_raw_fd() {
+                    Some(n) => ("fd".into(), After::RankRaw(n)),
+                    None => ("none".into(), After::Nothing),
+                },
+                _ => ("ill".into(), After::Nothing),
+            },
+            OpE::Dup(h) => match self.handles.get(*h) {
+                Some(Some(hd)) => match hd.dup() {
+                    Ok(n) => {
+                        let (a, b) = (hd.get_raw_fd(), n.get_raw_fd());
+                        if a == b || b.is_none() {
+                            self.violation(format!("dup() returned a handle on {:?}, the original is {:?}", b, a));
+                        } else if self.pool.file_of(a.unwrap()) != self.pool.file_of(b.unwrap()) {
+                            self.violation("dup() returned a descriptor for another file".into());
+                        }
+                        self.handles.push(Some(n));
+                        ("ok".into(), After::Nothing)
+                    }
+                    Err(_) => ("err".into(), After::Nothing),
+                },
+                _ => ("ill".into(), After::Nothing),
+            },
+            OpE::CloneH(h) => match self.handles.get(*h) {
+                Some(Some(hd)) => {
+                    let c = hd.clone();
+                    self.handles.push(Some(c));
+                    ("ok".into(), After::Nothing)
+                }
+                _ => ("ill".into(), After::Nothing),
+            },
+            OpE::DropH(h) => match self.handles.get_mut(*h) {
+                Some(x @ Some(_)) => {
+                    *x = None;
+                    ("ok".into(), After::Nothing)
+                }
+                _ => ("ill".into(), After::Nothing),
+            },
+        }
+    }
+
+    fn exec_push(&mut self, b: usize, items: &[ItemE], shape: Shape) -> (String, After) {
+        // legality as in the model
+        let body_ok = matches!(self.bodies.get(b), Some(Some(_)));
+        let items_ok = items.iter().all(|i| match i {
+            ItemE::H(h) => matches!(self.handles.get(*h), Some(Some(_))),
+            ItemE::R(r) => *r < self.raws.len(),
+            ItemE::Bad => true,
+        });
+        if !body_ok || !items_ok {
+            return ("ill".into(), After::Nothing);
+        }
+        let hs: Vec<UnixFd> = items
+            .iter()
+            .filter_map(|i| if let ItemE::H(h) = i { Some(self.handles[*h].as_ref().unwrap()) } else { None })
+            // NOTE: these are references re-borrowed below, the clone here would change the Arc count only
+            // transiently; we avoid even that by indexing `self.handles` directly where the API allows it
+            .cloned()
+            .collect();
+        let raw_n: Option<RawFd> = items.iter().find_map(|i| if let ItemE::R(r) = i { Some(self.raws[*r].0) } else { None });
+        // the descriptors behind the sources, in marshalling order (None = taken handle / failing element)
+        let sources: Vec<Option<RawFd>> = items
+            .iter()
+            .map(|i| match i {
+                ItemE::H(h) => self.handles[*h].as_ref().unwrap().get_raw_fd(),
+                ItemE::R(r) => Some(self.raws[*r].0),
+                ItemE::Bad => None,
+            })
+            .collect();
+        let open_before: Vec<RawFd> = list_fds();
+        let pool = self.pool;
+        let body = self.bodies[b].as_mut().unwrap();
+        let old_len = body.msg.body.get_fds().len();
+        let old_idx = body_indices(&body.msg).unwrap_or_default();
+        let old_buf = body.msg.get_buf().to_vec();
+        let old_sig = body.msg.get_sig().to_string();
+        let mb: &mut MarshalledMessageBody = &mut body.msg.body;
+        let r = guard(|| match shape {
+            Shape::Plain => mb.push_param(&hs[0]),
+            Shape::Raw => {
+                let w = RawW(raw_n.unwrap());
+                mb.push_param(&w as &dyn AsRawFd)
+            }
+            Shape::Struct => mb.push_param((7u32, &hs[0])),
+            Shape::Pair => mb.push_param((&hs[0], &hs[1])),
+            Shape::Vec(_) => mb.push_param(&hs[..]),
+            Shape::Variant => mb.push_variant(&hs[0]),
+            Shape::Dict => {
+                let mut m: HashMap<String, &UnixFd> = HashMap::new();
+                m.insert("k".to_string(), &hs[0]);
+                mb.push_param(&m)
+            }
+            Shape::Multi(2) => mb.push_param2(&hs[0], &hs[1]),
+            Shape::Multi(3) => mb.push_param3(&hs[0], &hs[1], &hs[2]),
+            Shape::Multi(_) => mb.push_params(&hs[..]),
+            Shape::Mixed => mb.push_param3(&hs[0], (9u32, &hs[1]), &hs[2..3]),
+            Shape::MultiBad => mb.push_param2(&hs[0], "a\0b"),
+            Shape::StructBad => mb.push_param((&hs[0], "a\0b")),
+        });
+        drop(hs);
+        let ok = match r {
+            Ok(Ok(())) => true,
+            Ok(Err(_)) => false,
+            Err(p) => {
+                self.violation(format!("push panicked: {}", p));
+                false
+            }
+        };
+        let body = self.bodies[b].as_mut().unwrap();
+        let new_len = body.msg.body.get_fds().len();
+        let idx = body_indices(&body.msg);
+        let mut viol: Vec<String> = Vec::new();
+        let idx = match idx {
+            Ok(i) => i,
+            Err(e) => {
+                viol.push(format!("the body cannot be read back: {}", e));
+                vec![]
+            }
+        };
+        if ok {
+            body.params.extend(shape.params());
+            let k = sources.len();
+            if new_len != old_len + k {
+                viol.push(format!("pushed {} descriptors, the list grew from {} to {}", k, old_len, new_len));
+            }
+            let want: Vec<u32> = old_idx.iter().cloned().chain((old_len..old_len + k).map(|x| x as u32)).collect();
+            if idx != want {
+                viol.push(format!("indices in the body are {:?}, the positions are {:?}", idx, want));
+            }
+            let fds = body.msg.body.get_fds();
+            for (i, src) in sources.iter().enumerate() {
+                let src = src.unwrap_or(-1);
+                if let Some(nf) = fds.get(old_len + i) {
+                    match nf.get_raw_fd() {
+                        Some(n) => {
+                            if n == src {
+                                viol.push(format!("the body holds the caller's descriptor {} itself, not a duplicate", n));
+                            }
+                            if pool.file_of(n) != pool.file_of(src) {
+                                viol.push(format!(
+                                    "descriptor {} of the list refers to file {}, the pushed one to file {}",
+                                    old_len + i,
+                                    pool.file_of(n),
+                                    pool.file_of(src)
+                                ));
+                            }
+                        }
+                        None => viol.push("a freshly pushed descriptor is already taken".into()),
+                    }
+                }
+                if ident(src).is_none() {
+                    viol.push(format!("the caller's descriptor {} is closed after the push", src));
+                }
+            }
+        } else {
+            if new_len != old_len {
+                viol.push(format!("failed push: the descriptor list has {} entries, before {}", new_len, old_len));
+            }
+            if body.msg.get_buf() != &old_buf[..] || body.msg.get_sig() != old_sig {
+                viol.push("failed push: body bytes or signature changed".into());
+            }
+            let open_after = list_fds();
+            if open_after != open_before {
+                viol.push(format!("failed push: open descriptors before {:?}, after {:?}", open_before, open_after));
+            }
+            for src in sources.iter().flatten() {
+                if ident(*src).is_none() {
+                    viol.push(format!("the caller's descriptor {} is closed after the failed push", src));
+                }
+            }
+        }
+        // UNIX_FDS of the header that would be sent now
+        if let Some(e) = header_fds_mismatch(&body.msg) {
+            viol.push(e);
+        }
+        let res = format!("{}/n{},i{}", if ok { "ok" } else { "err" }, new_len, dots(&idx));
+        for v in viol {
+            self.violation(v);
+        }
+        self.hits.push(format!("push_{}_{}", shape.name(), if ok { "ok" } else { "err" }));
+        (res, After::Nothing)
+    }
+
+    fn exec_send(&mut self, b: usize) -> (String, After) {
+        let body = match self.bodies.get(b) {
+            Some(Some(x)) => x,
+            _ => return ("ill".into(), After::Nothing),
+        };
+        let want_files: Vec<usize> = body.msg.body.get_raw_fds().iter().map(|n| self.pool.file_of(*n)).collect();
+        let listed = body.msg.body.get_fds().len();
+        let none_taken = body.msg.body.get_fds().iter().all(|f| f.get_raw_fd().is_some());
+        let params = body.params.clone();
+        let mut viol: Vec<String> = Vec::new();
+        let sent = self.conn.send.send_message(&body.msg).map(|c| c.write_all().map_err(|e| rustbus::connection::ll_conn::force_finish_on_error(e)));
+        match sent {
+            Ok(Ok(_)) => {}
+            _ => return ("err".into(), After::Nothing),
+        }
+        // the peer: one message with its descriptors
+        let (bytes, fds) = peer::recv_with_fds(&self.server, 1 << 20);
+        let got_files: Vec<usize> = fds.iter().map(|n| self.pool.file_of(*n)).collect();
+        let frames = peer::split_frames(&bytes).unwrap_or_default();
+        let mut nfds = 0usize;
+        if frames.len() != 1 {
+            viol.push(format!("{} frames at the peer for one send", frames.len()));
+        } else {
+            match peer::decode_frame(&frames[0]) {
+                Ok(m) => nfds = m.dynheader.num_fds.unwrap_or(0) as usize,
+                Err(e) => viol.push(format!("the peer cannot decode the frame: {}", e)),
+            }
+        }
+        if nfds != listed {
+            viol.push(format!("UNIX_FDS = {} but the message's descriptor list has {} entries", nfds, listed));
+        }
+        if got_files != want_files {
+            viol.push(format!("the peer received descriptors for files {:?}, the message carries {:?}", got_files, want_files));
+        }
+        if none_taken && fds.len() != nfds {
+            viol.push(format!("UNIX_FDS = {} but {} descriptors arrived", nfds, fds.len()));
+        }
+        if !none_taken {
+            self.hits.push("send_with_taken_descriptor(documented_limit)".into());
+        }
+        // echo it back: the kernel queues it (with the same open files) for the client
+        peer::send_with_fds(&self.server, &bytes, &fds);
+        for n in &fds {
+            let _ = nix::unistd::close(*n);
+        }
+        self.inflight.push_back(FlightE { files: got_files.clone(), params, valid: true });
+        for v in viol {
+            self.violation(v);
+        }
+        self.hits.push(format!("send_nfds_{}", listed));
+        (format!("ok/n{},f{}", nfds, dots(&got_files)), After::Nothing)
+    }
+
+    fn exec_peer_send(&mut self, files: &[usize], idx: &[u32], valid: bool) -> (String, After) {
+        // header made by the library's marshaller; `UnixFd::new(-1)` entries give UNIX_FDS without any descriptor
+        let mut buf = Vec::new();
+        for i in idx {
+            buf.extend_from_slice(&i.to_le_bytes());
+        }
+        let sig: String = "h".repeat(idx.len());
+        let dummies: Vec<UnixFd> = files.iter().map(|_| UnixFd::new(-1)).collect();
+        let frame = {
+            let mut msg = MessageBuilder::new().signal("a.b", "M", "/o").build();
+            msg.body = MarshalledMessageBody::from_parts(buf.clone(), 0, dummies.clone(), sig.clone(), rustbus::ByteOrder::LittleEndian);
+            self.serial_ctr += 1;
+            let mut hdr = Vec::new();
+            rustbus::wire::marshal::marshal(&msg, NonZeroU32::new(self.serial_ctr).unwrap(), &mut hdr).expect("peer header");
+            // append a SENDER field by hand, so that the field array does not end on an 8-byte boundary
+            // and there is padding in front of the body (an invalid message has data in it)
+            let fields_len = u32::from_le_bytes([hdr[12], hdr[13], hdr[14], hdr[15]]) as usize;
+            hdr.truncate(16 + fields_len);
+            while hdr.len() % 8 != 0 {
+                hdr.push(0);
+            }
+            hdr.extend_from_slice(&[7, 1, b's', 0, 4, 0, 0, 0, b':', b'1', b'.', b'5', 0]);
+            let new_len = (hdr.len() - 16) as u32;
+            hdr[12..16].copy_from_slice(&new_len.to_le_bytes());
+            let pad_at = hdr.len();
+            while hdr.len() % 8 != 0 {
+                hdr.push(0);
+            }
+            if !valid {
+                hdr[pad_at] = 1;
+            }
+            hdr.extend_from_slice(&buf);
+            hdr
+        };
+        drop(dummies);
+        let raw: Vec<RawFd> = files.iter().map(|f| self.pool.open(*f)).collect();
+        peer::send_with_fds(&self.server, &frame, &raw);
+        for n in raw {
+            let _ = nix::unistd::close(n);
+        }
+        self.inflight.push_back(FlightE { files: files.to_vec(), params: vec![PShape::H; idx.len()], valid });
+        self.hits.push(format!("peer_send_{}", if valid { "valid" } else { "invalid" }));
+        ("ok".into(), After::Nothing)
+    }
+
+    fn exec_recv(&mut self) -> (String, After) {
+        let r = self.conn.recv.get_next_message(Timeout::Nonblock);
+        let fl = self.inflight.front();
+        match r {
+            Ok(msg) => {
+                let fl = match fl {
+                    Some(_) => self.inflight.pop_front().unwrap(),
+                    None => {
+                        self.violation("a message arrived although nothing was sent".into());
+                        return ("ok/f?".into(), After::Nothing);
+                    }
+                };
+                let got = self.files_of_fds(msg.body.get_fds());
+                let want: Vec<String> = fl.files.iter().take(MAX_RECV_FDS).map(|f| f.to_string()).collect();
+                if !fl.valid {
+                    self.violation("a message with data in the header padding was accepted".into());
+                }
+                if got != want {
+                    self.violation(format!(
+                        "the received message carries descriptors for files {:?}, the message that was sent carried {:?}",
+                        got, want
+                    ));
+                }
+                self.hits.push(format!("recv_nfds_{}", got.len()));
+                if fl.files.len() > MAX_RECV_FDS {
+                    self.hits.push("recv_over_limit(documented_limit)".into());
+                }
+                let res = format!("ok/f{}", dots(&got));
+                self.bodies.push(Some(BodyE { msg, params: fl.params }));
+                (res, After::Nothing)
+            }
+            Err(rustbus::connection::Error::TimedOut) => {
+                if fl.is_some() {
+                    self.violation("nothing received although a message is in flight".into());
+                }
+                ("empty".into(), After::Nothing)
+            }
+            Err(_) => {
+                match fl {
+                    Some(f) if !f.valid => {
+                        self.inflight.pop_front();
+                        self.hits.push("recv_invalid".into());
+                    }
+                    _ => self.violation("get_next_message failed on a valid message".into()),
+                }
+                ("err".into(), After::Nothing)
+            }
+        }
+    }
+
+    fn exec_unm(&mut self, b: usize, j: usize) -> (String, After) {
+        let body = match self.bodies.get(b) {
+            Some(Some(x)) => x,
+            _ => return ("ill".into(), After::Nothing),
+        };
+        let idx = body_indices(&body.msg).unwrap_or_default();
+        if j >= idx.len() {
+            return ("ill".into(), After::Nothing);
+        }
+        let i = idx[j] as usize;
+        let nfds = body.msg.body.get_fds().len();
+        let r = guard(|| unmarshal_jth(body, j));
+        let mut viol = Vec::new();
+        let out = match r {
+            Ok(Ok(h)) => {
+                if i >= nfds {
+                    viol.push(format!("index {} with {} descriptors in the message was not refused", i, nfds));
+                } else {
+                    let want = body.msg.body.get_fds()[i].get_raw_fd();
+                    if h.get_raw_fd() != want {
+                        viol.push(format!("value with index {} gave descriptor {:?}, entry {} of the list is {:?}", i, h.get_raw_fd(), i, want));
+                    }
+                }
+                let n = h.get_raw_fd();
+                self.handles.push(Some(h));
+                self.hits.push("unmarshal_ok".into());
+                ("ok".to_string(), After::RankHandle(n))
+            }
+            Ok(Err(e)) => {
+                if i < nfds {
+                    viol.push(format!("index {} with {} descriptors in the message was refused: {}", i, nfds, e));
+                }
+                self.hits.push("unmarshal_bad_index".into());
+                ("err".to_string(), After::Nothing)
+            }
+            Err(p) => {
+                viol.push(format!("unmarshal panicked: {}", p));
+                ("err".to_string(), After::Nothing)
+            }
+        };
+        for v in viol {
+            self.violation(v);
+        }
+        out
+    }
+
+    // ---- generation -------------------------------------------------------------------------
+
+    fn live_handles(&self) -> Vec<usize> {
+        (0..self.handles.len()).filter(|i| self.handles[*i].is_some()).collect()
+    }
+    fn live_bodies(&self) -> Vec<usize> {
+        (0..self.bodies.len()).filter(|i| self.bodies[*i].is_some()).collect()
+    }
+    fn owned_raws(&self) -> Vec<usize> {
+        (0..self.raws.len()).filter(|r| self.raw_valid(*r) && self.owned.contains(&self.raws[*r].0)).collect()
+    }
+    fn valid_raws(&self) -> Vec<usize> {
+        (0..self.raws.len()).filter(|r| self.raw_valid(*r)).collect()
+    }
+
+    fn gen_op(&mut self, rng: &mut Prng, max_fds: usize) -> Option<OpE> {
+        let lh = self.live_handles();
+        let lb = self.live_bodies();
+        let or = self.owned_raws();
+        let vr = self.valid_raws();
+        for _ in 0..40 {
+            let k = rng.below(100);
+            let op = if k < 9 {
+                if self.order.len() >= 28 {
+                    continue;
+                }
+                OpE::Open(rng.below(NFILES as u64) as usize)
+            } else if k < 17 {
+                if or.is_empty() {
+                    continue;
+                }
+                OpE::Wrap(*rng.pick(&or))
+            } else if k < 22 {
+                if lb.len() >= 3 {
+                    continue;
+                }
+                OpE::NewBody
+            } else if k < 44 {
+                if lb.is_empty() || (lh.is_empty() && vr.is_empty()) {
+                    continue;
+                }
+                let b = *rng.pick(&lb);
+                let have = self.bodies[b].as_ref().unwrap().msg.body.get_fds().len();
+                if have >= max_fds {
+                    continue;
+                }
+                let room = max_fds - have;
+                let shape = match rng.below(14) {
+                    0 | 1 => Shape::Plain,
+                    2 => Shape::Raw,
+                    3 => Shape::Struct,
+                    4 => Shape::Pair,
+                    5 | 6 => Shape::Vec(rng.below(4) as usize),
+                    7 => Shape::Variant,
+                    8 => Shape::Dict,
+                    9 => Shape::Multi(2 + rng.below(3) as usize),
+                    10 => Shape::Mixed,
+                    11 => Shape::MultiBad,
+                    12 => Shape::StructBad,
+                    _ => Shape::Multi(3),
+                };
+                if shape == Shape::Raw {
+                    if vr.is_empty() {
+                        continue;
+                    }
+                    OpE::Push { b, items: vec![ItemE::R(*rng.pick(&vr))], shape }
+                } else {
+                    let n = shape.nhandles();
+                    if (n > 0 && lh.is_empty()) || n > room {
+                        continue;
+                    }
+                    let mut items: Vec<ItemE> = (0..n).map(|_| ItemE::H(*rng.pick(&lh))).collect();
+                    if matches!(shape, Shape::MultiBad | Shape::StructBad) {
+                        items.push(ItemE::Bad);
+                    }
+                    OpE::Push { b, items, shape }
+                }
+            } else if k < 47 {
+                if lb.is_empty() {
+                    continue;
+                }
+                OpE::Reset(*rng.pick(&lb))
+            } else if k < 51 {
+                if lb.is_empty() {
+                    continue;
+                }
+                OpE::DropBody(*rng.pick(&lb))
+            } else if k < 59 {
+                if lb.is_empty() || self.inflight.len() >= 4 {
+                    continue;
+                }
+                OpE::Send(*rng.pick(&lb))
+            } else if k < 62 {
+                if self.inflight.len() >= 4 {
+                    continue;
+                }
+                let nf = rng.below(max_fds as u64 + 1) as usize;
+                let files: Vec<usize> = (0..nf).map(|_| rng.below(NFILES as u64) as usize).collect();
+                let ni = rng.below(4) as usize;
+                let idx: Vec<u32> = (0..ni)
+                    .map(|_| if rng.chance(1, 4) { nf as u32 + rng.below(3) as u32 } else { rng.below(nf.max(1) as u64) as u32 })
+                    .collect();
+                OpE::PeerSend { files, idx, valid: !rng.chance(1, 5) }
+            } else if k < 70 {
+                if self.inflight.is_empty() && !rng.chance(1, 10) {
+                    continue;
+                }
+                OpE::Recv
+            } else if k < 78 {
+                // a value of a body. The parser reads whole top-level params: a value can be read if every index
+                // of its param and of the params before it is in range, or if it is itself the first index out of range
+                let mut cands = Vec::new();
+                for b in &lb {
+                    let body = self.bodies[*b].as_ref().unwrap();
+                    let idx = body_indices(&body.msg).unwrap_or_default();
+                    let n = body.msg.body.get_fds().len();
+                    let mut j = 0usize;
+                    'params: for p in &body.params {
+                        let k = p.nfds();
+                        if j + k > idx.len() {
+                            break;
+                        }
+                        match (j..j + k).find(|q| idx[*q] as usize >= n) {
+                            None => {
+                                for q in j..j + k {
+                                    cands.push((*b, q));
+                                }
+                            }
+                            Some(q) => {
+                                cands.push((*b, q));
+                                break 'params;
+                            }
+                        }
+                        j += k;
+                    }
+                }
+                if cands.is_empty() {
+                    continue;
+                }
+                let (b, j) = *rng.pick(&cands);
+                OpE::Unm(b, j)
+            } else if k < 83 {
+                if lh.is_empty() {
+                    continue;
+                }
+                OpE::Take(*rng.pick(&lh))
+            } else if k < 85 {
+                if lh.is_empty() {
+                    continue;
+                }
+                OpE::Get(*rng.pick(&lh))
+            } else if k < 88 {
+                if lh.is_empty() || self.order.len() >= 28 {
+                    continue;
+                }
+                OpE::Dup(*rng.pick(&lh))
+            } else if k < 93 {
+                if lh.is_empty() || lh.len() >= 12 {
+                    continue;
+                }
+                OpE::CloneH(*rng.pick(&lh))
+            } else if k < 97 {
+                if lh.is_empty() {
+                    continue;
+                }
+                OpE::DropH(*rng.pick(&lh))
+            } else {
+                if or.is_empty() {
+                    continue;
+                }
+                OpE::Close(*rng.pick(&or))
+            };
+            return Some(op);
+        }
+        None
+    }
+
+    /// drop everything in random order, check for leaks, close what the caller owns
+    fn finish(&mut self, rng: &mut Prng) {
+        while !self.inflight.is_empty() {
+            let before = self.inflight.len();
+            self.step(OpE::Recv);
+            if self.inflight.len() == before {
+                break;
+            }
+        }
+        let mut rest: Vec<OpE> = self.live_handles().into_iter().map(OpE::DropH).chain(self.live_bodies().into_iter().map(OpE::DropBody)).collect();
+        while !rest.is_empty() {
+            let i = rng.below(rest.len() as u64) as usize;
+            let op = rest.swap_remove(i);
+            self.step(op);
+        }
+        // leak check: what is open now is exactly what the caller owns
+        let open: BTreeSet<RawFd> = self.order.iter().map(|t| t.num).collect();
+        if open != self.owned {
+            let leaked: Vec<String> = open.difference(&self.owned).map(|n| format!("{}(file {})", n, self.pool.file_of(*n))).collect();
+            let lost: Vec<RawFd> = self.owned.difference(&open).cloned().collect();
+            self.violation(format!(
+                "after dropping every handle, body and message: leaked descriptors {:?}, caller-owned descriptors that are closed {:?}",
+                leaked, lost
+            ));
+        }
+        loop {
+            let or = self.owned_raws();
+            match or.first() {
+                Some(r) => self.step(OpE::Close(*r)),
+                None => break,
+            }
+        }
+        if !self.order.is_empty() {
+            let left: Vec<RawFd> = self.order.iter().map(|t| t.num).collect();
+            self.violation(format!("descriptors left open at the end: {:?}", left));
+            for n in left {
+                let _ = nix::unistd::close(n);
+            }
+            self.audit();
+        }
+    }
+
+    fn close(self, out: &mut Out, nontrivial: bool) {
+        rustbus::verif_hooks::set_callback(None);
+        let req = format!("c11.run {}", self.toks.join(" "));
+        for b in &self.bad {
+            out.violation(&req, b);
+        }
+        for h in &self.hits {
+            out.hit(h);
+        }
+        out.hit("history");
+        out.hit_n("history_ops", self.toks.len() as u64);
+        let obs = if self.obs.is_empty() { "-".to_string() } else { self.obs.join(" ") };
+        out.case(&req, &obs, nontrivial);
+    }
+}
+
+/// UNIX_FDS in the header the library marshals for this message vs. the length of its descriptor list
+fn header_fds_mismatch(msg: &MarshalledMessage) -> Option<String> {
+    let mut hdr = Vec::new();
+    if rustbus::wire::marshal::marshal(msg, NonZeroU32::new(77).unwrap(), &mut hdr).is_err() {
+        return Some("marshal of the header failed".into());
+    }
+    hdr.extend_from_slice(msg.get_buf());
+    match peer::decode_frame(&hdr) {
+        Ok(m) => {
+            let n = m.dynheader.num_fds.unwrap_or(0) as usize;
+            let l = msg.body.get_fds().len();
+            if n != l {
+                Some(format!("UNIX_FDS in the header is {}, the descriptor list has {} entries", n, l))
+            } else {
+                None
+            }
+        }
+        Err(e) => Some(format!("own header does not decode: {}", e)),
+    }
+}
+
+fn random_history(out: &mut Out, pool: &Pool, rng: &mut Prng, len: usize, max_fds: usize) {
+    let mut h = Hist::new(pool);
+    // short preludes so that short histories reach the interesting states: a live handle whose descriptor
+    // has been taken (through a clone), a body ready to be pushed into
+    let f = rng.below(NFILES as u64) as usize;
+    let g = rng.below(NFILES as u64) as usize;
+    let prelude: Vec<OpE> = match rng.below(4) {
+        0 => vec![OpE::Open(f), OpE::Wrap(0), OpE::CloneH(0), OpE::Take(1), OpE::Open(g), OpE::Wrap(2), OpE::NewBody],
+        1 => vec![OpE::Open(f), OpE::Wrap(0), OpE::Open(g), OpE::NewBody],
+        _ => vec![],
+    };
+    for op in prelude {
+        h.step(op);
+    }
+    for _ in 0..len {
+        match h.gen_op(rng, max_fds) {
+            Some(op) => h.step(op),
+            None => break,
+        }
+    }
+    h.finish(rng);
+    let nt = h.toks.iter().any(|t| t.starts_with('p')) && h.toks.len() >= 4;
+    h.close(out, nt);
+}
+
+fn scripted_history(out: &mut Out, pool: &Pool, rng: &mut Prng, script: &str) {
+    let mut h = Hist::new(pool);
+    for t in script.split_whitespace() {
+        match parse_tok(t) {
+            Some(op) => h.step(op),
+            None => {
+                out.violation(script, &format!("harness: token {} not understood", t));
+                break;
+            }
+        }
+    }
+    h.finish(rng);
+    h.close(out, true);
+}
 
 pub fn run(cfg: &Cfg) {
-    let out = Out::new(&cfg.outdir);
-    out.finish("stub", false);
+    std::panic::set_hook(Box::new(|_| {}));
+    let mut out = Out::new(&cfg.outdir);
+    let pool = Pool::new(&cfg.outdir);
+    let mut rng = Prng::new(cfg.seed);
+    if let Some(line) = &cfg.replay {
+        let script = line.strip_prefix("c11.run ").unwrap_or(line).to_string();
+        scripted_history(&mut out, &pool, &mut rng, &script);
+        out.finish("replay of one request line", false);
+        return;
+    }
+    // fixed scenarios: the example of Props/C11.lean; two messages in flight in both directions; a crafted index
+    // beyond the list; the documented limit of 10 descriptors per received message
+    let scripts = [
+        "o0 o1 w0 w1 nb p0:h0:plain p0:h1:struct c1 t2 p0:h0,h1:multi2 s0 rc u1:0 t3 dh0 dh1 db0 db1",
+        "o0 o1 o2 w0 w1 w2 nb nb p0:h0,h1:pair p1:h2:variant p1:h0:dict s0 s1 ps3,4:1,0:1 rc rc rc u2:0 u3:1 u4:0 u4:1",
+        "ps0,1:0,1,2,7:1 rc u0:0 u0:1 u0:2 ps2:0:0 rc ps-:0:1 rc u1:0",
+        "ps0,1,2,3,4,0,1,2,3,4,0,1:0,9,10,11:1 rc u0:0 u0:1 u0:2",
+        "o0 w0 nb p0:h0,h0,h0:multi3 u0:1 t1 s0 rc u1:0 u1:1 u1:2",
+    ];
+    for s in scripts {
+        scripted_history(&mut out, &pool, &mut rng, s);
+    }
+    let (n, maxlen) = if cfg.thorough { (4000, 40) } else { (300, 12) };
+    for _ in 0..n {
+        let len = rng.range(3, maxlen) as usize;
+        random_history(&mut out, &pool, &mut rng, len, 4);
+    }
+    out.finish(
+        "seeded random histories over real descriptors (temp files with distinct inodes): userOpen / wrap / userClose, bodies with pushes at top level and nested (struct, pair, array, variant, dict value, &dyn AsRawFd, push_param2/3/params), failing multi-pushes (taken handle at any position, element with a NUL string), reset, drop, send through a real DuplexConn to a scripted peer that echoes the message with its descriptors, peer-made messages (also with indices beyond the list and with a header the decoder refuses), get_next_message, unmarshal of any value, take / get / dup / clone / drop in random order; every history ends by dropping everything in random order and closing the caller's descriptors; /proc/self/fd + fstat audited after every step; plus 5 fixed scenarios; quick 300 histories of <= 12 ops, thorough 4000 of <= 40 ops, up to 4 descriptors per message (12 in the over-limit scenario); distinct by request line; non-trivial = at least one push and 4 steps",
+        false,
+    );
 }
